@@ -29,6 +29,22 @@ let model op c args =
       (match decode_scan c regs with
        | Some out -> String.concat ";" (List.map (fun (s, e) -> "ok " ^ hex_of_bytes s ^ " " ^ hex_of_bytes e) out)
        | None -> "decerr")
+  | "fdk" -> (match split_v2_key (a 0) with Some (p, r) -> "ok " ^ hex_of_bytes p ^ " " ^ hex_of_bytes r | None -> "err")
+  | "dre" ->
+      let sp c s = String.split_on_char c s in
+      let part i = List.nth args i in
+      let knir = if part 0 = "~" then None else (match sp ':' (part 0) with
+                   | [k; s; e] -> Some ((bytes_of_hex k, bytes_of_hex s), bytes_of_hex e) | _ -> failwith "dre") in
+      let epoch = if part 1 = "~" then None else if part 1 = "()" then Some [] else
+                    Some (List.map (fun r -> match sp ':' r with [s; e] -> (bytes_of_hex s, bytes_of_hex e) | _ -> failwith "dre") (sp ',' (part 1))) in
+      let bks = if part 2 = "~" then None else if part 2 = "()" then Some [] else Some (List.map bytes_of_hex (sp ',' (part 2))) in
+      (match decode_region_error c { re_knir = knir; re_epoch = epoch; re_buckets = bks } with
+       | None -> "err"
+       | Some r ->
+         let kn = (match r.re_knir with None -> "~" | Some ((k, s), e) -> hex_of_bytes k ^ ":" ^ hex_of_bytes s ^ ":" ^ hex_of_bytes e) in
+         let ep = (match r.re_epoch with None -> "~" | Some [] -> "()" | Some l -> String.concat "," (List.map (fun (s, e) -> hex_of_bytes s ^ ":" ^ hex_of_bytes e) l)) in
+         let bv = (match r.re_buckets with None -> "~" | Some [] -> "()" | Some l -> String.concat "," (List.map hex_of_bytes l)) in
+         "ok " ^ kn ^ " " ^ ep ^ " " ^ bv)
   | "pki" -> (match parse_keyspace_id (a 0) with Some id -> "ok " ^ hex_of_n id | None -> "err")
   | _ -> "unknown-op"
 
